@@ -1110,7 +1110,8 @@ class Collector:
             assert bits is not None
             bits = EParens(bits)
 
-            component = self.metrics.get_hardware().get_component(src)
+            component = self.metrics.get_hardware().get_component(
+                src, einsum)
             assert isinstance(component, MemoryComponent)
 
             metrics_time = AAccess(metrics_src, EString("time"))
